@@ -25,6 +25,9 @@ type Symb struct {
 	mu  sync.Mutex
 	t2h map[string]Hash
 	h2t map[Hash]string
+	// prefix: every leaf hash starts with the same 12 bytes (leaf hashes are chosen by the
+	// user; code that keys a map by a hash prefix must not lose leaves that share it)
+	prefix bool
 }
 
 func NewSymb() *Symb {
@@ -74,6 +77,9 @@ func (s *Symb) h(term string) Hash {
 			panic("bad term " + term)
 		}
 		out = leafHash("verif-leaf", i)
+		if s.prefix {
+			copy(out[:12], "sharedprefix")
+		}
 	case term[0] == 'J':
 		i, err := strconv.ParseUint(term[1:], 10, 64)
 		if err != nil {
